@@ -37,6 +37,7 @@ class MemWatch(threading.Thread):
     self.cap_kb = int(cap_gb * 1024 * 1024)
     self.stop = False
     self.killed = []
+    self.peak = {}  # harness fn name -> peak RSS kB
 
   def run(self):
     while not self.stop:
@@ -77,6 +78,15 @@ class MemWatch(threading.Thread):
         q = ppid.get(q)
         if q is None:
           break
+      if ok and name.get(p) == "cbmc":
+        try:
+          cl = open("/proc/%d/cmdline" % p).read()
+          m = re.search(r"(ob_\w+?)\.", cl.replace("\0", " ") + ".")
+          mm = re.findall(r"\d+(ob_\w+)", cl)
+          key = mm[-1].split(".")[0] if mm else (m.group(1) if m else str(p))
+          self.peak[key] = max(self.peak.get(key, 0), rss[p])
+        except OSError:
+          pass
       if ok and rss[p] > self.cap_kb:
         try:
           os.kill(p, signal.SIGKILL)
@@ -96,6 +106,12 @@ def run_crate(root, crate, items, jobs, timeout_s, mem_gb, logdir, extra_flags=N
   for ob, fq in items:
     cmd += ["--harness", fq]
   cmd += ["--exact", "-j", str(jobs), "--output-format", "terse", "--harness-timeout", "%ds" % timeout_s]
+  jsonpath = os.path.join(logdir, "kani-%s.json" % crate)
+  try:
+    os.remove(jsonpath)
+  except OSError:
+    pass
+  cmd += ["--export-json", jsonpath]
   if extra_flags:
     cmd += extra_flags
   log("kani:", crate, "%d harnesses, -j %d, timeout %ds" % (len(items), jobs, timeout_s))
@@ -120,6 +136,7 @@ def run_crate(root, crate, items, jobs, timeout_s, mem_gb, logdir, extra_flags=N
   out = open(logpath, errors="replace").read()
   by_fq = {fq: ob for ob, fq in items}
   parsed = parse_terse(out)
+  merge_json(parsed, jsonpath)
   compile_failed = ("error: could not compile" in out) or ("error[E" in out) or (
     not parsed and "Checking harness" not in out
   )
@@ -131,9 +148,66 @@ def run_crate(root, crate, items, jobs, timeout_s, mem_gb, logdir, extra_flags=N
     if r is None:
       r = {"status": "undecided", "reason": "no result reported (killed / crashed / timed out)", "time_s": None}
     r["harness"] = fq
+    pk = [v for k, v in mw.peak.items() if k.startswith(ob.fn) and (k == ob.fn or not k[len(ob.fn):][:1].isalnum() and k[len(ob.fn):][:1] != "_")]
+    r["peak_rss_gb"] = round(max(pk) / 1048576.0, 2) if pk else None
     r["log"] = logpath
     results[ob.id] = r
   return results, wall, " ".join(cmd)
+
+
+UNDECIDED_CATEGORIES = ("unwind", "unsupported_construct")
+
+
+def merge_json(parsed, jsonpath):
+  """Add per-check detail (cover identities, failed-check categories) from --export-json."""
+  import json
+  try:
+    d = json.load(open(jsonpath))
+  except (OSError, ValueError):
+    return
+  for res in d.get("verification_results", {}).get("results", []):
+    h = res.get("harness_id")
+    r = parsed.get(h)
+    if r is None:
+      continue
+    covers = []
+    failed = []
+    for c in res.get("checks", []):
+      loc = c.get("location", {})
+      where = "%s:%s" % (os.path.basename(loc.get("file", "?")).replace("fibre__", "").replace("fibre_cache__", "").replace("fibre_logging__", ""), loc.get("line", "?"))
+      if c.get("category") == "cover":
+        covers.append({"where": where, "description": c.get("description"), "status": c.get("status")})
+      elif c.get("status") in ("Failure", "Failed", "Undetermined"):
+        failed.append({"category": c.get("category"), "description": c.get("description"), "location": where + " in " + str(c.get("function"))})
+    r["cover_detail"] = covers
+    if failed:
+      r["failed_checks"] = failed
+      if r.get("status") == "failed" and any(f["category"] in UNDECIDED_CATEGORIES for f in failed):
+        r["status"] = "undecided"
+        r["reason"] = "verifier limit: " + "; ".join("%s (%s)" % (f["description"], f["category"]) for f in failed if f["category"] in UNDECIDED_CATEGORIES)[:300]
+    # vacuity, per harness: the END cover(s) must be reached
+    if r.get("status") in ("discharged", "vacuous") and covers:
+      ends = [c for c in covers if c["description"] == "END"]
+      if not ends:
+        r["status"] = "vacuous"
+        r["reason"] = "harness has no END cover"
+      elif not any(c["status"] == "Satisfied" for c in ends):
+        r["status"] = "vacuous"
+        r["reason"] = "END cover not reachable (harness is vacuous): " + ends[0]["where"]
+      else:
+        r["status"] = "discharged"
+        r.pop("reason", None)
+
+
+def group_cover_gaps(results):
+  """Branch covers may be unreachable for one instance of a step (e.g. a fixed shape) but every cover
+  location must be reached by at least one harness of the run.  Returns the list of unreached locations."""
+  seen = {}
+  for oid, r in results.items():
+    for c in r.get("cover_detail") or []:
+      k = (c["where"], c["description"])
+      seen[k] = seen.get(k, False) or c["status"] == "Satisfied"
+  return sorted("%s `%s`" % k for k, v in seen.items() if not v)
 
 
 def parse_terse(out):
